@@ -253,7 +253,7 @@ def handle : List String → String
         else if op = "limit" then some (limitLane a b c, limit a b c)
         else if op = "smulww" then some (wrap32 (smulwwLaneAvx2 a b), smulww a b)
         else if op = "smulwb" then some (wrap32 (smulwbLaneAvx2 a b), smulwb a b)
-        else if op = "srairound" then (if 0 < b ∧ b < 31 then some (sraiRoundLane a b.toNat, rshiftRound a b.toNat) else none)
+        else if op = "srairound" then (if 1 < b ∧ b < 31 then some (sraiRoundLane a b.toNat, rshiftRound a b.toNat) else none)
         else if op = "rand" then some (randLane a, randC a)
         else none
       match f with
